@@ -2,6 +2,7 @@
 //   - can.Frame.Validate
 //   - socketcan.NewTransmitter(fake net.Conn, interceptor).TransmitFrame: the fake records every call
 //   - socketcan.NewReceiver(scripted io.ReadCloser, interceptor): Receive/Frame/HasErrorFrame/ErrorFrame/Err
+//
 // It generates the cases (seeded; generators do not use the code under test), runs the real
 // code and prints one observation per line for the model driver (ocaml/socketcan_main.ml).
 // Compiled into /repo's working tree with `go build -overlay` as cmd/verif_socketcan.
@@ -9,25 +10,31 @@
 // usage: verif_socketcan c06|c07 <seed> quick|thorough
 //
 // Line formats (numbers lower-case hex, fields separated by single spaces):
-//   frame    = id.len.data16hex.remote01.extended01
-//   errframe = class.lostarb.ctrl.prot.protloc.trx.csi6hex
-//   V <frame> <ok01>                                     Frame.Validate() == nil
-//   T <frame> | <nwrites> <hex of all written bytes|-> <err01> | <rxok01> <frame> <iserr01>
-//                                                        TransmitFrame on a fake conn, then the
-//                                                        written bytes fed to a Receiver
-//   R <block32hex> | <ok01> <frame> <iserr01> <errframe> one 16-byte block through a Receiver
-//   S <ncalls> <read>* | <event>*                        a scripted connection; <read>* is the LOG
-//                                                        of what the reader actually returned:
-//        d<hex> (n,nil)   x<code>:<hex> (n,err)   e<code> (0,err)   z (0,io.EOF)
-//        T:<icpt frames joined by ,>:<frame>:<iserr01>:<errframe>   Receive() = true
-//        F:<icpt frames>:<frame>:<err code|->                        Receive() = false
-//        P  Receive panicked      H  the harness gave up (too many calls)
-//   X <call>* | <event>*                                 calls on one Transmitter
-//        call = <frame>;<deadline01>;<deadline answer code|->;<write answer code|->
-//        D SetWriteDeadline(ctx deadline)  D! (other time)  W<hex> Write  I<frame> interceptor
-//        U<name> any other method of the conn   R<code|-> result of the call (errors.Is cause)
-//   error codes (hex): 0 io.EOF, 1 io.ErrNoProgress, 2..5 bufio.ErrTooLong/NegativeAdvance/AdvanceTooFar/
-//        FinalToken, 6 io.ErrUnexpectedEOF, 10+k injected error number k, ? anything else
+//
+//	frame    = id.len.data16hex.remote01.extended01
+//	errframe = class.lostarb.ctrl.prot.protloc.trx.csi6hex
+//	V <frame> <ok01>                                     Frame.Validate() == nil
+//	T <frame> | <nwrites> <hex of all written bytes|-> <err01> | <rxok01> <frame> <iserr01>
+//	                                                     TransmitFrame on a fake conn, then the
+//	                                                     written bytes fed to a Receiver
+//	R <block32hex> | <ok01> <frame> <iserr01> <errframe> one 16-byte block through a Receiver
+//	S <ncalls> <read>* | <event>*                        a scripted connection; <read>* is the LOG
+//	                                                     of what the reader actually returned:
+//	     d<hex> (n,nil)   x<code>:<hex> (n,err)   e<code> (0,err)   z (0,io.EOF)
+//	     T:<icpt frames joined by ,>:<frame>:<iserr01>:<errframe>   Receive() = true
+//	     F:<icpt frames>:<frame>:<err code|->                        Receive() = false
+//	     P  Receive panicked      H  the harness gave up (too many calls)
+//	X <call>* | <event>*                                 calls on one Transmitter
+//	     call = <frame>;<deadline01>;<deadline answer code|->;<write answer n>;<write answer code|->
+//	            (every Write of the call answers (min(n, len(b)), error))
+//	     D SetWriteDeadline(ctx deadline)  D! (other time)  W<hex> Write  I<frame> interceptor
+//	     U<name> any other method of the conn   R<code|-> result of the call (errors.Is cause)
+//	C <frame>* | <block32hex|E>*                         K goroutines transmit one frame each on ONE shared
+//	                                                     Transmitter; the conn holds every Write until all K
+//	                                                     are inside Write, then records the bytes it was given
+//	                                                     (E = a TransmitFrame call returned an error)
+//	error codes (hex): 0 io.EOF, 1 io.ErrNoProgress, 2..5 bufio.ErrTooLong/NegativeAdvance/AdvanceTooFar/
+//	     FinalToken, 6 io.ErrUnexpectedEOF, 10+k injected error number k, ? anything else
 package main
 
 import (
@@ -42,6 +49,7 @@ import (
 	"os"
 	"strconv"
 	"strings"
+	"sync"
 	"time"
 
 	"go.einride.tech/can"
@@ -236,6 +244,7 @@ type fakeConn struct {
 	events      []string
 	deadlineAns error
 	writeAns    error
+	writeN      int // byte count answered by Write (capped at len(b))
 	want        time.Time
 	writes      [][]byte
 }
@@ -244,10 +253,11 @@ func (c *fakeConn) Write(b []byte) (int, error) {
 	cp := append([]byte(nil), b...)
 	c.writes = append(c.writes, cp)
 	c.events = append(c.events, "W"+hex.EncodeToString(cp))
-	if c.writeAns != nil {
-		return 0, c.writeAns
+	n := c.writeN
+	if n > len(b) {
+		n = len(b)
 	}
-	return len(b), nil
+	return n, c.writeAns
 }
 
 func (c *fakeConn) SetWriteDeadline(t time.Time) error {
@@ -258,12 +268,21 @@ func (c *fakeConn) SetWriteDeadline(t time.Time) error {
 	}
 	return c.deadlineAns
 }
-func (c *fakeConn) Read(b []byte) (int, error)        { c.events = append(c.events, "URead"); return 0, io.EOF }
-func (c *fakeConn) Close() error                      { c.events = append(c.events, "UClose"); return nil }
-func (c *fakeConn) LocalAddr() net.Addr               { c.events = append(c.events, "ULocalAddr"); return nil }
-func (c *fakeConn) RemoteAddr() net.Addr              { c.events = append(c.events, "URemoteAddr"); return nil }
-func (c *fakeConn) SetDeadline(t time.Time) error     { c.events = append(c.events, "USetDeadline"); return nil }
-func (c *fakeConn) SetReadDeadline(t time.Time) error { c.events = append(c.events, "USetReadDeadline"); return nil }
+func (c *fakeConn) Read(b []byte) (int, error) {
+	c.events = append(c.events, "URead")
+	return 0, io.EOF
+}
+func (c *fakeConn) Close() error         { c.events = append(c.events, "UClose"); return nil }
+func (c *fakeConn) LocalAddr() net.Addr  { c.events = append(c.events, "ULocalAddr"); return nil }
+func (c *fakeConn) RemoteAddr() net.Addr { c.events = append(c.events, "URemoteAddr"); return nil }
+func (c *fakeConn) SetDeadline(t time.Time) error {
+	c.events = append(c.events, "USetDeadline")
+	return nil
+}
+func (c *fakeConn) SetReadDeadline(t time.Time) error {
+	c.events = append(c.events, "USetReadDeadline")
+	return nil
+}
 
 // ---------------------------------------------------------------- C06
 
@@ -326,7 +345,7 @@ func mkBlock(w uint32, dlc byte, pad [3]byte, d can.Data) [16]byte {
 
 func c06(seed int64, thorough bool) {
 	rng := rand.New(rand.NewSource(seed))
-	c06conn = &fakeConn{}
+	c06conn = &fakeConn{writeN: 16}
 	c06tx = socketcan.NewTransmitter(c06conn)
 	basis := []can.Data{dataOf(0), dataOf(^uint64(0)), dataOf(0x0807060504030201), dataOf(0xf0e0d0c0b0a09080)}
 	for i := 0; i < 64; i++ {
@@ -450,6 +469,94 @@ func c06(seed int64, thorough bool) {
 		}
 		emitBlock(b)
 	}
+	// goroutines sharing one Transmitter (canrunner runs one transmit goroutine per message on one
+	// transmitter): the multiset of written blocks must be the frames' layouts
+	rounds := 10
+	if thorough {
+		rounds = 100
+	}
+	for r := 0; r < rounds; r++ {
+		for k := 2; k <= 8; k++ {
+			emitConcurrent(rng, k)
+		}
+	}
+}
+
+// ---------------------------------------------------------------- C06: one Transmitter shared by goroutines
+
+// barrierConn holds every Write until `want` goroutines are inside Write (or a bounded wait has
+// passed), and only then looks at the bytes it was given - like a connection that copies the
+// caller's buffer some time after the call started.
+type barrierConn struct {
+	fakeConn
+	mu       sync.Mutex
+	need     int
+	arrived  int
+	release  chan struct{}
+	released bool
+	blocks   []string
+}
+
+func (c *barrierConn) open() {
+	if !c.released {
+		c.released = true
+		close(c.release)
+	}
+}
+
+func (c *barrierConn) Write(b []byte) (int, error) {
+	c.mu.Lock()
+	c.arrived++
+	if c.arrived >= c.need {
+		c.open()
+	}
+	c.mu.Unlock()
+	select {
+	case <-c.release:
+	case <-time.After(3 * time.Second): // somebody never reached Write: let everybody go
+		c.mu.Lock()
+		c.open()
+		c.mu.Unlock()
+	}
+	c.mu.Lock()
+	c.blocks = append(c.blocks, hex.EncodeToString(b))
+	c.mu.Unlock()
+	return len(b), nil
+}
+
+func emitConcurrent(rng *rand.Rand, k int) {
+	conn := &barrierConn{need: k, release: make(chan struct{})}
+	tx := socketcan.NewTransmitter(conn)
+	frames := make([]can.Frame, k)
+	strs := make([]string, k)
+	for i := range frames {
+		f := can.Frame{Length: uint8(rng.Intn(9)), Data: dataOf(rng.Uint64()), IsRemote: rng.Intn(4) == 0}
+		if rng.Intn(2) == 0 {
+			f.ID = (rng.Uint32()&0x7f)<<4 | uint32(i) // distinct per goroutine
+		} else {
+			f.ID = (rng.Uint32()&0x1ffffff)<<4 | uint32(i)
+			f.IsExtended = true
+		}
+		frames[i] = f
+		strs[i] = frameStr(f)
+	}
+	var wg sync.WaitGroup
+	errs := make([]bool, k)
+	for i := range frames {
+		wg.Add(1)
+		go func(i int) {
+			defer wg.Done()
+			errs[i] = tx.TransmitFrame(context.Background(), frames[i]) != nil
+		}(i)
+	}
+	wg.Wait()
+	blocks := conn.blocks
+	for _, e := range errs {
+		if e {
+			blocks = append(blocks, "E")
+		}
+	}
+	fmt.Fprintf(out, "C %s | %s\n", strings.Join(strs, " "), strings.Join(blocks, " "))
 }
 
 // ---------------------------------------------------------------- C07
@@ -668,13 +775,26 @@ func c07(seed int64, thorough bool) {
 		}
 		emitScript([]entry{{data: bs[:len(bs)-30]}, {data: bs[len(bs)-30:], err: inj(4)}})
 	}
-	// 7. transmitter: sequences of calls with every combination of answers
+	// 7. transmitter: every combination of answers
+	//    ctx with/without deadline x SetWriteDeadline ok/failed x Write answers (n, err) with
+	//    n in {0,1,8,15,16} x err in {nil, error}: exhaustively as single calls and as first call of a
+	//    sequence, then random sequences
+	nfr := 6
+	if thorough {
+		nfr = 200
+	}
+	for i := 0; i < nfr; i++ {
+		for combo := 0; combo < 40; combo++ {
+			emitTransmit(rng, 1, combo)
+			emitTransmit(rng, 2+rng.Intn(3), combo)
+		}
+	}
 	ncalls := 400
 	if thorough {
 		ncalls = 20000
 	}
 	for i := 0; i < ncalls; i++ {
-		emitTransmit(rng, 1+rng.Intn(5), i)
+		emitTransmit(rng, 1+rng.Intn(5), rng.Intn(40))
 	}
 }
 
@@ -693,7 +813,7 @@ func randFrame(rng *rand.Rand) can.Frame {
 	return f
 }
 
-func emitTransmit(rng *rand.Rand, n int, round int) {
+func emitTransmit(rng *rand.Rand, n int, first int) {
 	conn := &fakeConn{}
 	tx := socketcan.NewTransmitter(conn, socketcan.TransmitterFrameInterceptor(func(f can.Frame) {
 		conn.events = append(conn.events, "I"+frameStr(f))
@@ -701,9 +821,9 @@ func emitTransmit(rng *rand.Rand, n int, round int) {
 	var calls []string
 	for i := 0; i < n; i++ {
 		f := randFrame(rng)
-		combo := (round + i) % 8
+		combo := first
 		if i > 0 {
-			combo = rng.Intn(8)
+			combo = rng.Intn(40)
 		}
 		dl := combo&1 != 0
 		conn.deadlineAns, conn.writeAns = nil, nil
@@ -713,13 +833,14 @@ func emitTransmit(rng *rand.Rand, n int, round int) {
 		if combo&4 != 0 {
 			conn.writeAns = inj(6)
 		}
+		conn.writeN = []int{0, 1, 8, 15, 16}[combo/8]
 		ctx := context.Background()
 		cancel := func() {}
 		if dl {
 			conn.want = time.Now().Add(time.Duration(1+rng.Intn(1000)) * time.Hour)
 			ctx, cancel = context.WithDeadline(ctx, conn.want)
 		}
-		calls = append(calls, fmt.Sprintf("%s;%s;%s;%s", frameStr(f), b01(dl), errCode(conn.deadlineAns), errCode(conn.writeAns)))
+		calls = append(calls, fmt.Sprintf("%s;%s;%s;%x;%s", frameStr(f), b01(dl), errCode(conn.deadlineAns), conn.writeN, errCode(conn.writeAns)))
 		err := tx.TransmitFrame(ctx, f)
 		cancel()
 		conn.events = append(conn.events, "R"+causeCode(err))
